@@ -11,7 +11,12 @@ READY = True
 RUN_IMPORT = "Dom.ReactiveRun"
 IMPL_SHARDS = 8
 
-RULE = ("(a third of the cases additionally contain async leaves — closures returning Suspend over a fresh oneshot-"
+RULE = ("(a quarter of the cases are leptos-level component trees — the real <Show>, <For>/<ForEnumerate>, <Suspense>/"
+        "<Transition> over LocalResources with oneshot-controlled fetchers read through Suspend and through .get(), "
+        "<ErrorBoundary> switching between Ok and Err, nested, with dynamic text / property leaves — mounted with "
+        "leptos::mount::mount_to_renderer; histories of signal writes, resource completions and, for half of them, "
+        "dropping the mount handle at the end; judged by the oracle only) "
+        "(a third of the cases additionally contain async leaves — closures returning Suspend over a fresh oneshot-"
         "controlled future per run that reads signals inside the async block — and enumerated keyed lists driven by a "
         "signal; their steps also complete outstanding futures in a chosen order, incl. older after newer, and all "
         "futures are completed at the end; async-only programs are run a second time with a reduced observation that "
@@ -38,9 +43,14 @@ TRUSTED = [
 ASSUMPTIONS = [
     "closures are pure functions of the signals they read and read all of them on every run (no untrack, no writes from effects)",
     "every view renders to exactly one DOM node (text or element); fragments / lists as branch roots are outside the model",
-    "Suspense boundaries, ErrorBoundary, leptos-level <For>/<ForEnumerate> components (their tachys shape — keyed "
-    "with per-row index signal and OwnedView — is driven), resources and explicit owner-disposal events are not in the "
-    "generated programs; keyed lists are judged by the oracle only (not in the Coq model)",
+    "the leptos components (<Show>, <For>, <ForEnumerate>, <Suspense>, <Transition>, <ErrorBoundary>, LocalResource) "
+    "and keyed lists are driven on the real code and judged by the model-independent oracle only: compared, not proved "
+    "(<Show> corresponds to the memoised conditional of the Coq model); Resource (serialising) and Transition inside "
+    "<For> rows are not generated",
+    "while a resource is loading the oracle accepts, for a boundary whose mounted readers are not loading but whose "
+    "unmounted readers' resource is, both the fallback and the children (readers unmounted during a load keep the "
+    "boundary suspended until that load ends), and for Suspend(res.await) either of the last two values when a "
+    "superseded load has just finished",
 ]
 
 
@@ -184,9 +194,412 @@ def gen_ext_case(rng):
     return dict(case=[view, sigs, steps, [rng.randint(0, 1)]], kind="async-keyed", compare=False)
 
 
+# ------------------------------------------------------------------ leptos-level component trees
+def gen_ltree(rng, nsig, nres, depth, lab, in_susp=False, in_row=False):
+    r = rng.random()
+    if depth <= 0:
+        r *= 0.42
+    if r < 0.08:
+        return [0, rng.randint(0, 9)]
+    if r < 0.26:
+        return [1, lab.next(), gen_expr(rng, nsig)]
+    if r < 0.42 and in_susp and nres:
+        return [rng.choice([6, 7]), lab.next(), rng.randrange(nres)]
+    if r < 0.55:
+        props = []
+        for k in [0, rng.choice([1, 2]), 3]:
+            if rng.random() < 0.2:
+                props.append([k, lab.next(), gen_expr(rng, nsig)])
+        return [2, props, [gen_ltree(rng, nsig, nres, depth - 1, lab, in_susp, in_row) for _ in range(rng.choice([1, 2, 2, 3]))]]
+    if r < 0.68:
+        return [3, lab.next(), gen_expr(rng, nsig), gen_ltree(rng, nsig, nres, depth - 1, lab, in_susp, in_row),
+                gen_ltree(rng, nsig, nres, depth - 1, lab, in_susp, in_row)]
+    if r < 0.78 and not in_row:
+        keys = rng.sample(range(1, 10), rng.randint(2, 4))
+        lists = [list(keys)]
+        for _ in range(rng.randint(1, 3)):
+            cur = list(rng.choice(lists))
+            m = rng.random()
+            if m < 0.35 and cur:
+                cur.pop(rng.randrange(len(cur)))
+            elif m < 0.65:
+                new = [k for k in range(1, 10) if k not in cur]
+                cur.insert(rng.randint(0, len(cur)), rng.choice(new))
+            elif m < 0.85:
+                rng.shuffle(cur)
+            else:
+                cur = []
+            lists.append(cur)
+        return [4, lab.next(), rng.randint(0, 1), rng.randrange(nsig), lists,
+                gen_ltree(rng, nsig, nres, min(depth - 1, 1), lab, in_susp, True)]
+    if r < 0.92 and nres and not in_row:
+        kids = [gen_ltree(rng, nsig, nres, depth - 1, lab, True, in_row) for _ in range(rng.choice([1, 2, 2]))]
+        if not any(readers(k) for k in kids):
+            kids.append([rng.choice([6, 7]), lab.next(), rng.randrange(nres)])
+        return [5, lab.next(), int(rng.random() < 0.35), kids]
+    return [8, lab.next(), gen_expr(rng, nsig), gen_ltree(rng, nsig, nres, depth - 1, lab, in_susp, in_row)]
+
+
+def readers(t, s=None):
+    """resources read (through Suspend or .get()) in the part of t that is mounted with the signal values s
+    (all branches if s is None), not looking into nested Suspense / Transition boundaries"""
+    op = t[0]
+    if op in (6, 7):
+        return {t[2]}
+    if op == 2:
+        return set().union(*[readers(k, s) for k in t[2]]) if t[2] else set()
+    if op == 3:
+        if s is None:
+            return readers(t[3], s) | readers(t[4], s)
+        return readers(t[3] if ev(t[2], s) != 0 else t[4], s)
+    if op == 4:
+        if s is not None and not _for_items(t, s):
+            return set()
+        return readers(t[5], s)
+    if op == 8:
+        if s is not None and ev(t[2], s) == 0:
+            return set()
+        return readers(t[3], s)
+    return set()
+
+
+def _for_items(t, s):
+    lists = t[4]
+    return lists[s[t[3]] % len(lists)] if lists else []
+
+
+def active_transitions(t, s, out):
+    """labels of the Transition boundaries mounted with the signal values s, with their reader sets"""
+    op = t[0]
+    if op == 2:
+        for k in t[2]:
+            active_transitions(k, s, out)
+    elif op == 3:
+        active_transitions(t[3] if ev(t[2], s) != 0 else t[4], s, out)
+    elif op == 4:
+        if _for_items(t, s):
+            active_transitions(t[5], s, out)
+    elif op == 5:
+        out[t[1]] = (t[2], set().union(*[readers(k, s) for k in t[3]]) if t[3] else set())
+        for k in t[3]:
+            active_transitions(k, s, out)
+    elif op == 8:
+        if ev(t[2], s) != 0:
+            active_transitions(t[3], s, out)
+
+
+def _prod(alts_list):
+    out = [[]]
+    for alts in alts_list:
+        out = [a + b for a in out for b in alts]
+        if len(out) > 64:
+            out = out[:64]
+    return out
+
+
+def lnodes(t, s, res, shown=frozenset(), touched=frozenset()):
+    """the node lists the mounted tree may show: res[r] = (value or None, loading); shown = labels of the
+    mounted Transition boundaries that have already shown their children with nothing pending.  A boundary
+    MUST show its fallback while a resource read by its mounted children is loading (a Transition only
+    before it has shown its children), MUST show its children when no resource its children can ever read
+    is loading; in between (readers that were unmounted while their resource was loading keep the boundary
+    suspended until that fetch ends) both are accepted."""
+    op = t[0]
+    if op == 0:
+        return [[[0, t[1]]]]
+    if op == 1:
+        return [[[0, ev(t[2], s)]]]
+    if op == 2:
+        p = [-1, -1, 0, -1]
+        for k, _l, e in t[1]:
+            x = ev(e, s)
+            p[k] = (1 if x != 0 else 0) if k == 2 else x
+        return [[[1, p, kids]] for kids in _prod([lnodes(k, s, res, shown, touched) for k in t[2]])]
+    if op == 3:
+        return lnodes(t[3] if ev(t[2], s) != 0 else t[4], s, res, shown, touched)
+    if op == 4:
+        rows = []
+        for i, k in enumerate(_for_items(t, s)):
+            rows.append([[[1, [-1, -1, 0, -1], [[0, i * 100 + k if t[2] else k]] + inner]]
+                         for inner in lnodes(t[5], s, res, shown, touched)])
+        return _prod(rows)
+    if op == 5:
+        active = set().union(*[readers(k, s) for k in t[3]]) if t[3] else set()
+        fallback = [[[0, -t[1]]]]
+        children = _prod([lnodes(k, s, res, shown, touched) for k in t[3]])
+        if t[2] and t[1] in shown:
+            return children
+        if any(res[r][1] for r in active):
+            return fallback
+        if any(res[r][1] and (t[1], r) in touched for r in range(len(res))):
+            # readers that registered during the load still running have been unmounted since
+            return children + fallback
+        return children
+    if op == 6:
+        # Suspend(res.await): shows the value of the last load it saw finish; while the resource is loading
+        # again right after a superseded load finished, that may be that load's value or the one before
+        # (a reader mounted while the resource is loading shows nothing yet)
+        vals = [res[t[2]][0]] + ([res[t[2]][2], None] if res[t[2]][1] else [])
+        out = []
+        for v in vals:
+            alt = [[0, v]] if v is not None else []
+            if alt not in out:
+                out.append(alt)
+        return out
+    if op == 7:
+        v = res[t[2]][0]
+        return [[[0, v if v is not None else -1]]]
+    if op == 8:
+        return lnodes(t[3], s, res, shown, touched) if ev(t[2], s) != 0 else [[[0, -t[1]]]]
+    return [[]]
+
+
+def llabels(t):
+    op = t[0]
+    out = []
+    if op in (1, 3, 4, 5, 6, 7, 8):
+        out.append(t[1])
+    if op == 2:
+        out += [p[1] for p in t[1]]
+        for k in t[2]:
+            out += llabels(k)
+    elif op == 3:
+        out += llabels(t[3]) + llabels(t[4])
+    elif op == 4:
+        out += llabels(t[5])
+    elif op == 5:
+        for k in t[3]:
+            out += llabels(k)
+    elif op == 8:
+        out += llabels(t[3])
+    return out
+
+
+def gen_leptos_case(rng):
+    nsig = rng.choice([1, 2, 2, 3])
+    nres = rng.choice([0, 1, 1, 2])
+    lab = Lab()
+    tree = [2, [], [gen_ltree(rng, nsig, nres, rng.choice([1, 2, 2, 3]), lab) for _ in range(rng.choice([1, 2]))]]
+    sources = [gen_expr(rng, nsig) for _ in range(nres)]
+    sigs = [rng.randint(0, 2) for _ in range(nsig)]
+    steps = []
+    for _ in range(rng.randint(1, 6)):
+        writes = [[rng.randrange(nsig), rng.choice([0, 1, 2, 3])] for _ in range(rng.choice([0, 1, 1, 1, 2]))]
+        picks = [rng.randint(0, 7) for _ in range(rng.choice([0, 0, 3, 6]))]
+        comps = []
+        if nres:
+            r = rng.random()
+            if r < 0.45:
+                comps = [[x, 0] for x in range(nres)]
+            elif r < 0.75:
+                comps = [[rng.randrange(nres), rng.choice([0, 0, 1])] for _ in range(rng.randint(1, 2))]
+        steps.append([writes, picks, comps])
+    return dict(case=[7, tree, sources, sigs, steps, [int(rng.random() < 0.5), rng.randint(0, 1)]],
+                kind="leptos-components", compare=False)
+
+
+def recreated_transitions(t, written, under, out):
+    """Transition boundaries below an ErrorBoundary whose closure re-runs (it read a written signal): the
+    closure builds its content anew, so they are new boundaries"""
+    op = t[0]
+    if op == 2:
+        for k in t[2]:
+            recreated_transitions(k, written, under, out)
+    elif op == 3:
+        recreated_transitions(t[3], written, under, out)
+        recreated_transitions(t[4], written, under, out)
+    elif op == 4:
+        recreated_transitions(t[5], written, under, out)
+    elif op == 5:
+        if t[2] and under:
+            out.add(t[1])
+        for k in t[3]:
+            recreated_transitions(k, written, under, out)
+    elif op == 8:
+        recreated_transitions(t[3], written, under or bool(rd(t[2]) & written), out)
+
+
+def lsignals(t):
+    op = t[0]
+    if op == 1:
+        return rd(t[2])
+    if op == 2:
+        out = set()
+        for _k, _l, e in t[1]:
+            out |= rd(e)
+        for k in t[2]:
+            out |= lsignals(k)
+        return out
+    if op == 3:
+        return rd(t[2]) | lsignals(t[3]) | lsignals(t[4])
+    if op == 4:
+        return {t[3]} | lsignals(t[5])
+    if op == 5:
+        return set().union(*[lsignals(k) for k in t[3]]) if t[3] else set()
+    if op == 8:
+        return rd(t[2]) | lsignals(t[3])
+    return set()
+
+
+def luntouched(t, nodes, written, out):
+    """static texts, dynamic texts and elements that are not inside any control-flow component: the same
+    node object, unmutated, unless one of the signals they read was written (an element also when one of
+    its control-flow children may have changed its child list)"""
+    if t[0] in (0, 1):
+        if len(nodes) >= 1 and not ((rd(t[2]) if t[0] == 1 else set()) & written) and nodes[0][2] != 0:
+            out.append("node showing %r has status %d although nothing it reads was written" % (nodes[0][1], nodes[0][2]))
+        return 1
+    if t[0] == 2:
+        if not nodes or nodes[0][0] != 1:
+            return None
+        g = set()
+        for _k, _l, e in t[1]:
+            g |= rd(e)
+        fixed = True
+        for k in t[2]:
+            if k[0] not in (0, 1, 2):
+                g |= lsignals(k) | {"*"}
+        node = nodes[0]
+        if "*" not in g and not (g & written) and node[2] != 0:
+            out.append("element has status %d although nothing it reads was written" % node[2])
+        pos = 0
+        for k in t[2]:
+            if k[0] not in (0, 1, 2):
+                break
+            if luntouched(k, node[3][pos:], written, out) is None:
+                break
+            pos += 1
+        return 1
+    return None
+
+
+def oracle_leptos(item, impl):
+    _seven, tree, sources, sigs, steps, (unmount, _drain) = item["case"]
+    s = list(sigs)
+    # an async derived value fetches sequentially: a source change during a fetch is picked up when that
+    # fetch has completed.  per resource: value, source value of the fetch in flight (None: idle), dirty
+    res = [[None, ev(e, s), False] for e in sources]
+    settled_value = [None for _ in sources]      # value when the resource was last not loading
+    shown = set()
+
+    # a reader that tracks a loading resource registers its boundary with the resource; the registrations
+    # made during one load keep the boundary suspended during the NEXT load of that resource (the fetch
+    # takes them when it starts), whether or not the reader is still mounted
+    touched = set()      # (boundary, resource) held during the running load
+    reg_next = set()     # (boundary, resource) registered during the running load
+
+    def start_fetch(r):
+        for (l, r2) in list(touched):
+            if r2 == r:
+                touched.discard((l, r2))
+        for (l, r2) in list(reg_next):
+            if r2 == r:
+                touched.add((l, r2))
+                reg_next.discard((l, r2))
+        res[r][1] = ev(sources[r], s)
+
+    def settle_transitions():
+        act = {}
+        active_transitions(tree, s, act)
+        for l in list(shown):
+            if l not in act:
+                shown.discard(l)          # unmounted: a later mount is a new boundary
+        for reg in (touched, reg_next):
+            for (l, r) in list(reg):
+                if l not in act:
+                    reg.discard((l, r))
+        for l, (is_transition, rs) in act.items():
+            for r in rs:
+                if res[r][1] is not None:
+                    reg_next.add((l, r))
+                    touched.add((l, r))
+            if is_transition and not any(res[r][1] is not None and (l, r) in touched for r in range(len(res))):
+                shown.add(l)
+
+    def finish(r):
+        if res[r][1] is None:
+            return
+        res[r][0] = 10 * res[r][1] + r
+        res[r][1] = None
+        for (l, r2) in list(touched):
+            if r2 == r:
+                touched.discard((l, r2))
+        if res[r][2]:
+            res[r][2] = False
+            start_fetch(r)
+        else:
+            settled_value[r] = res[r][0]
+        settle_transitions()
+
+    n = len(steps) + 2 + (1 if unmount else 0)
+    if len(impl) != n:
+        return "malformed observation"
+    for k in range(len(steps) + 2):
+        entry = impl[k]
+        if not (isinstance(entry, list) and len(entry) == 3 and isinstance(entry[1], list)):
+            return "malformed observation"
+        if 0 < k <= len(steps):
+            writes, _picks, comps = steps[k - 1]
+            written = set()
+            for i, x in writes:
+                s[i] = x
+                written.add(i)
+            for r, e in enumerate(sources):
+                if rd(e) & written:
+                    if res[r][1] is None:
+                        start_fetch(r)
+                    else:
+                        res[r][2] = True
+            gone = set()
+            recreated_transitions(tree, written, False, gone)
+            shown.difference_update(gone)
+            for reg in (touched, reg_next):
+                for (l, r) in list(reg):
+                    if l in gone:
+                        reg.discard((l, r))
+            settle_transitions()
+            for r, stale in comps:
+                if not stale:
+                    finish(r)
+        if k == len(steps) + 1:
+            for _ in range(50):
+                busy = [r for r in range(len(res)) if res[r][1] is not None]
+                if not busy:
+                    break
+                finish(busy[0] if not _drain else busy[-1])
+        settle_transitions()
+        got = [plain(x) for x in entry[1]]
+        state = [(v, fl is not None, settled_value[r]) for r, (v, fl, _) in enumerate(res)]
+        want = lnodes(tree, s, state, frozenset(shown), frozenset(touched))
+        pend = any(x[1] for x in state)
+        if got not in want:
+            return ("idle point %d (%s): the mounted DOM is not what the components show for the current signal "
+                    "values and resource states" % (k, "a resource is pending" if pend else "no resource pending"))
+        if not pend and entry[2] != 1:
+            return "idle point %d, no resource pending: the mounted DOM differs from a fresh mount" % k
+        if 0 < k <= len(steps):
+            bad = []
+            luntouched(tree, entry[1], {i for i, _ in steps[k - 1][0]}, bad)
+            if bad:
+                return "idle point %d: %s" % (k, bad[0])
+    if unmount:
+        post = impl[-1]
+        if not (isinstance(post, list) and len(post) == 3):
+            return "malformed observation"
+        if post[0]:
+            return "after the mount handle was dropped closure %d still ran" % post[0][0]
+        if post[1] != 0:
+            return "after the mount handle was dropped the parent still has %d children" % post[1]
+        if post[2] != 0:
+            return "after the mount handle was dropped the DOM was mutated %d times" % post[2]
+    return None
+
+
 def generate(rng, tier):
     n = 4000 if tier == "quick" else 60000
     for i in range(n):
+        if i % 4 == 1:
+            yield gen_leptos_case(rng)
         if i % 3 == 0:
             it = gen_ext_case(rng)
             yield it
@@ -411,6 +824,8 @@ def oracle(item, impl):
         return "harness error / panic: " + impl[:200]
     if item.get("kind") == "async-keyed":
         return oracle_ext(item, impl)
+    if item.get("kind") == "leptos-components":
+        return oracle_leptos(item, impl)
     if item.get("kind") == "async-model":
         return None          # judged on its async-keyed twin; this copy only feeds the model comparison
     view, sigs, steps = item["case"]
@@ -447,7 +862,7 @@ def oracle(item, impl):
 
 
 def nontrivial(item, model):
-    if item.get("kind") == "async-keyed":
+    if item.get("kind") in ("async-keyed", "leptos-components"):
         return True
     if isinstance(model, str) or item.get("kind") == "async-model":
         return False
@@ -457,8 +872,61 @@ def nontrivial(item, model):
     return False
 
 
+def _has_boundary(t):
+    op = t[0]
+    if op == 5:
+        return True
+    if op == 2:
+        return any(_has_boundary(k) for k in t[2])
+    if op == 3:
+        return _has_boundary(t[3]) or _has_boundary(t[4])
+    if op in (4, 8):
+        return _has_boundary(t[5] if op == 4 else t[3])
+    return False
+
+
+def _lshape_ok(t, nsig, nres, in_susp=False):
+    op = t[0]
+    if op == 0:
+        return len(t) == 2 and t[1] >= 0
+    if op == 1:
+        return len(t) == 3 and _expr_ok(t[2], nsig)
+    if op == 2:
+        kinds = [p[0] for p in t[1]]
+        return (len(t) == 3 and kinds == sorted(set(kinds)) and not (1 in kinds and 2 in kinds)
+                and all(len(p) == 3 and p[0] in (0, 1, 2, 3) and _expr_ok(p[2], nsig) for p in t[1])
+                and all(_lshape_ok(k, nsig, nres, in_susp) for k in t[2]))
+    if op == 3:
+        return len(t) == 5 and _expr_ok(t[2], nsig) and _lshape_ok(t[3], nsig, nres, in_susp) and _lshape_ok(t[4], nsig, nres, in_susp)
+    if op == 4:
+        return (len(t) == 6 and t[2] in (0, 1) and 0 <= t[3] < nsig and len(t[4]) >= 1
+                and all(len(set(l)) == len(l) and all(0 < k < 100 for k in l) for l in t[4])
+                and _lshape_ok(t[5], nsig, nres, in_susp) and not _has_boundary(t[5]))
+    if op == 5:
+        return (len(t) == 4 and t[2] in (0, 1) and len(t[3]) >= 1 and all(_lshape_ok(k, nsig, nres, True) for k in t[3])
+                and bool(set().union(*[readers(k) for k in t[3]])))
+    if op in (6, 7):
+        return len(t) == 3 and in_susp and 0 <= t[2] < nres
+    if op == 8:
+        return len(t) == 4 and _expr_ok(t[2], nsig) and _lshape_ok(t[3], nsig, nres, in_susp)
+    return False
+
+
 def valid_case(item):
     c = item["case"]
+    if item.get("kind") == "leptos-components":
+        try:
+            seven, tree, sources, sigs, steps, fin = c
+            labs = llabels(tree)
+            return (seven == 7 and len(labs) == len(set(labs)) and all(0 < l < CLEANUP for l in labs) and bool(sigs)
+                    and all(x >= 0 for x in sigs) and all(_expr_ok(e, len(sigs)) for e in sources)
+                    and _lshape_ok(tree, len(sigs), len(sources)) and len(fin) == 2 and all(f in (0, 1) for f in fin)
+                    and all(len(st) == 3 and all(0 <= i < len(sigs) and x >= 0 for i, x in st[0])
+                            and all(isinstance(k, int) and k >= 0 for k in st[1])
+                            and all(isinstance(k, list) and len(k) == 2 and 0 <= k[0] < len(sources) and k[1] in (0, 1)
+                                    for k in st[2]) for st in steps))
+        except Exception:
+            return False
     if item.get("kind") == "async-model":
         return (isinstance(c, list) and len(c) == 5 and c[4] == [1] and not has_keyed(c[0])
                 and valid_case(dict(case=c[:4], kind="async-keyed")))
@@ -543,7 +1011,35 @@ def _sv(v):
     return "{#%d %sif %s {%s} else {%s}}" % (v[1], "memo " if v[2] else "", _se(v[3]), _sv(v[4]), _sv(v[5]))
 
 
+def _lt(t):
+    op = t[0]
+    if op == 0:
+        return '"%d"' % t[1]
+    if op == 1:
+        return "{#%d %s}" % (t[1], _se(t[2]))
+    if op == 2:
+        names = ["title", "class", "class:on", "style:width"]
+        return "<div%s>%s</div>" % ("".join(" %s={#%d %s}" % (names[k], l, _se(e)) for k, l, e in t[1]), " ".join(_lt(k) for k in t[2]))
+    if op == 3:
+        return "<Show#%d when=%s fallback=%s>%s</Show>" % (t[1], _se(t[2]), _lt(t[4]), _lt(t[3]))
+    if op == 4:
+        return "<%s#%d each=%r[s%d]>%s</>" % ("ForEnumerate" if t[2] else "For", t[1], t[4], t[3], _lt(t[5]))
+    if op == 5:
+        return "<%s#%d>%s</>" % ("Transition" if t[2] else "Suspense", t[1], " ".join(_lt(k) for k in t[3]))
+    if op == 6:
+        return "{#%d Suspend(res%d.await)}" % (t[1], t[2])
+    if op == 7:
+        return "{#%d res%d.get()}" % (t[1], t[2])
+    return "<ErrorBoundary#%d>{if %s {Ok(%s)} else {Err}}</>" % (t[1], _se(t[2]), _lt(t[3]))
+
+
 def describe(it):
+    if it.get("kind") == "leptos-components":
+        _7, tree, sources, sigs, steps, fin = it["case"]
+        return "mount %s ; resources %s ; s=%r ; steps %s ; %s" % (
+            _lt(tree), [_se(e) for e in sources], sigs,
+            "; ".join("set %s, poll %r, complete %r" % (",".join("s%d=%d" % (i, x) for i, x in w), p, c) for w, p, c in steps),
+            "complete all, then drop the mount handle" if fin[0] else "complete all")
     if it.get("kind") in ("async-keyed", "async-model"):
         view, sigs, steps, drain = it["case"][:4]
         return "mount %s with s=%r; steps %s; then complete all (%s first)" % (_sv(view), sigs, "; ".join(
@@ -559,7 +1055,7 @@ def coverage_extra(results):
     switches = 0
     for r in results:
         m = r["model"]
-        if isinstance(m, str) or r["item"].get("kind") in ("async-keyed", "async-model"):
+        if isinstance(m, str) or r["item"].get("kind") in ("async-keyed", "async-model", "leptos-components"):
             continue
         for k in range(1, len(m)):
             runs += len(m[k][0])
